@@ -378,6 +378,7 @@ func runC09(c *Ctx) {
 		}
 	}
 	runC09Routers(c)
+	runC09Round3(c)
 
 	// ---------- R7 from/to provenance
 	c.Rule("R7", "PROV", "the signal/pipeline taken from the connector's exporter-side uses feeds the first (from) argument and the one from its receiver-side uses the second (to) argument of connectorStability and createConnector", 3)
